@@ -36,14 +36,18 @@ impl RaftDataHandler {
         self.sequence_db
             .send(RaftApplyDataRequest::BuildSnapshot(writer.clone()))
             .await??;
+        // The namespaces before the configs: records are loaded in the order they are written,
+        // and a loaded config appends its tenant to the namespace list (as a weak namespace) if it
+        // is not there yet. The list is served in the order of insertion, which for the
+        // namespaces of this snapshot has to be the order of their records.
+        self.namespace
+            .send(RaftApplyDataRequest::BuildSnapshot(writer.clone()))
+            .await??;
         self.config
             .send(ConfigCmd::BuildSnapshot(writer.clone()))
             .await??;
         self.table
             .send(TableManagerInnerReq::BuildSnapshot(writer.clone()))
-            .await??;
-        self.namespace
-            .send(RaftApplyDataRequest::BuildSnapshot(writer.clone()))
             .await??;
         self.mcp_manager
             .send(RaftApplyDataRequest::BuildSnapshot(writer.clone()))
